@@ -183,9 +183,29 @@ def run(tier, seed, jobs) -> Result:
                  ("C05",), jobs, seed, [], time_budget=60 if tier == "quick" else 900)
     res = Result(level="exploration")
     res.failures = fails + hres.failures
+    # schedule part: what a COPY / MOVE adds (content, flags) and what EXPUNGE / MOVE remove when the source changes under the
+    # command -- the final store must be that of some sequential order of the documented steps (scenarios shared with C10)
+    from ..explore import sched
+    from . import c10
+
+    by = {sc["name"]: sc for sc in c10.scenarios(tier)}
+    per = []
+    s_exec = s_steps = 0
+    for name in ("copy|expunge", "move1|move3", "copyself|store12", "copy|copyback"):
+        sc = by[name]
+        r = sched.explore(sc, (1 if name in ("move1|move3",) else 2) if tier == "quick" else 2, jobs, seed, max_exec=20000 if tier == "quick" else 80000)
+        for f in r["failures"]:
+            if f.rule in ("C10.not-linearizable", "C02.copyuid-names-other-message", "C02.copyuid-shape"):
+                f.details = dict(f.details, was=f.rule)
+                f.rule = "C05.concurrent-copy-move-expunge-not-sequential"
+                res.failures.append(f)
+        s_exec += r["executions"]
+        s_steps += r["steps"]
+        per.append({"scenario": name, "executions": r["executions"], "bound": r["bound_completed"], "outcomes": r["distinct_outcomes"], "cap": r["cap"]})
     res.coverage = {
-        "evaluations": evals + hres.coverage["transitions"],
-        "distinct_nontrivial": len(allc) + hres.coverage["states"],
+        "evaluations": evals + hres.coverage["transitions"] + s_exec,
+        "distinct_nontrivial": len(allc) + hres.coverage["states"] + s_exec,
+        "schedule_part": per,
         "rule": "E: every (N, \\Deleted subset, rw/EXAMINE, command, set) cell of the matrix is a distinct case by construction "
                 "(each changes or must not change the store); H: distinct canonical states reached by two-session histories",
         "matrix_cases": len(allc),
@@ -195,7 +215,9 @@ def run(tier, seed, jobs) -> Result:
         "samples": [allc[0][2], allc[len(allc) // 2][2], allc[-1][2]],
         "diverged_key_uid_cases": sum(1 for c in allc if len(c) > 3),
     }
-    res.assumptions = ["second family of start states: INBOX whose former top message was expunged before two more arrived (MH key != UID), N=3 (quick) / 3,4 (thorough)",
+    res.assumptions = ["schedule part: COPY 1:2 other | EXPUNGE, MOVE | MOVE, COPY into the own mailbox | STORE, opposite-direction COPYs under every schedule with <=2 deviations "
+                       "(MOVE | MOVE: 1 in the quick tier): final contents and flags of every mailbox equal some sequential order of the documented steps",
+                       "second family of start states: INBOX whose former top message was expunged before two more arrived (MH key != UID), N=3 (quick) / 3,4 (thorough)",
                        "N<=3 (quick) / N<=4 (thorough); every \\Deleted subset; message sets from a fixed list of 7 shapes "
                        "(incl. duplicates and partly non-existent UIDs); destination `other` holds one message",
                        "'changes nothing' is judged on the maildir tree (names, sizes, hashes) and all database rows minus timestamp columns"]
@@ -207,6 +229,16 @@ def replay(rec):
     if rp.get("driver") == "c05":
         f, _, _ = work([(rp["n"], rp["deleted"], rp["history"]) + ((rp["gap"],) if rp.get("gap") else ())])
         return f
+    if rp.get("driver") == "s":
+        from ..explore import sched
+
+        _p, _n, _sig, fails, _st = sched.run_one((rp["scenario"], rp["choices"]))
+        out = []
+        for f in fails:
+            if f.rule in ("C10.not-linearizable", "C02.copyuid-names-other-message", "C02.copyuid-shape"):
+                f.rule = "C05.concurrent-copy-move-expunge-not-sequential"
+                out.append(f)
+        return out
     from .hcommon import replay_h
 
     return replay_h("C0", rec)
